@@ -243,7 +243,7 @@ GOVERS = ['go1.21.0', 'go1.22.1', 'go1.20.3', 'go1.21', 'devel +abc', '']
 GOOSES = ['linux', 'darwin', 'windows', 'plan9', 'Linux', '']
 GOARCHES = ['amd64', 'arm64', '386', 'amd64p32', '']
 CHARTS = ['c', 'gopls/client', 'go/errors', 'x', 's', 'crash/crash', 'aa', 'a.b', 'p<q&r', 'q"t', 'ünï/cöde', '日本', 'tab\there']
-BUCKETS = ['a', 'b', 'ab', '1', '2', '10', 'other', 'true', 'go1.21', 'x-y', 'A', 'ß', '語', 'a b', 'a:b', 'a/b']
+BUCKETS = ['a', 'b', 'ab', '1', '2', '10', 'other', 'true', 'go1.21', 'x-y', 'A', 'ß', '語', 'a b', 'a:b', 'a/b', ' a', 'b ', '\tb', ' ab ']
 STACKS = ['s', 'crash/crash', 'gopls/bug', 'c', 'x', 'go.bug', 's<t&u', 'паника', 's\t']
 FRAMES = ['f1', 'f2', 'main.main:12', 'runtime.goexit:+1', 'a/b.F:3', 'g', 'pkg.(*T).M:7', '']
 NAMECHARS = ['a', 'b', 'c', ':', '{', '}', ',', ' ', 's', '.', '/', '-', 'A', '<', '&', '"', '1', 'é', '日', '\t', '\r', '\\', "'", 'ß']
